@@ -154,3 +154,13 @@ type ReplayFile struct {
 	Faults    []string            `json:"faults,omitempty"`
 	Trace     []string            `json:"trace_tail,omitempty"`
 }
+
+// SortedKeys returns the keys of a string-keyed map in sorted order.
+func SortedKeys[V any](m map[string]V) []string {
+	ks := make([]string, 0, len(m))
+	for k := range m {
+		ks = append(ks, k)
+	}
+	sort.Strings(ks)
+	return ks
+}
